@@ -182,6 +182,53 @@ func c11Read24One(s *emulator.System, a uint32) string {
 	return ""
 }
 
+// c11HistoryOne: a plain read at prior, a 24-bit read at q (which straddles a 16-byte cell), then plain
+// accesses to the bytes of q that lie in the next cell: each must return what a plain read returns on its
+// own (val/pan: the table of a plain sweep, or nil to compute it here), and a write there must be read back.
+func c11HistoryOne(s *emulator.System, prior, q uint32, val []byte, pan []bool) string {
+	alone := func(a uint32) (byte, bool) {
+		if val != nil {
+			return val[a], pan[a]
+		}
+		c11Read(s, a^0x10) // forget whatever the bus remembers about this cell
+		return c11Read(s, a)
+	}
+	for d := uint32(1); d <= 2; d++ {
+		y := q&0xFF0000 | (q+d)&0xFFFF
+		if y>>4 == q>>4 {
+			continue
+		}
+		wv, wp := alone(y)
+		c11Read(s, prior)
+		func() {
+			defer func() { _ = recover() }()
+			s.Bus.EaRead24_wrap(byte(q>>16), uint16(q))
+		}()
+		gv, gp := c11Read(s, y)
+		if gp != wp || (!gp && gv != wv) {
+			return fmt.Sprintf("read $%06x, then Bus.EaRead24_wrap($%02x,$%04x), then read $%06x = $%02x (panic %v); on its own that read gives $%02x (panic %v)", prior, q>>16, q&0xFFFF, y, gv, gp, wv, wp)
+		}
+		if wp {
+			continue
+		}
+		c11Read(s, prior)
+		func() {
+			defer func() { _ = recover() }()
+			s.Bus.EaRead24_wrap(byte(q>>16), uint16(q))
+		}()
+		if c11Write(s, y, wv^0xFF) {
+			return fmt.Sprintf("read $%06x, then Bus.EaRead24_wrap($%02x,$%04x), then write $%06x panics; the read there does not", prior, q>>16, q&0xFFFF, y)
+		}
+		c11Read(s, y^0x10)
+		back, _ := c11Read(s, y)
+		c11Write(s, y, wv)
+		if mc, _ := c11Mapper(y); mc != refmap.Unmapped && mc != refmap.ROM && back != wv^0xFF {
+			return fmt.Sprintf("read $%06x, then Bus.EaRead24_wrap($%02x,$%04x), then write $%06x: the byte reads back $%02x, want $%02x", prior, q>>16, q&0xFFFF, y, back, wv^0xFF)
+		}
+	}
+	return ""
+}
+
 func replayC11(raw json.RawMessage) (string, error) {
 	var c c11Case
 	if err := json.Unmarshal(raw, &c); err != nil {
@@ -244,6 +291,15 @@ func replayC11(raw json.RawMessage) (string, error) {
 			}
 		}
 		return "the copied System's bus serves its own arrays", nil
+	}
+	if c.Op == "history" {
+		for _, k := range []uint{0, 3} {
+			c11Fill(s, k)
+			if w := c11HistoryOne(s, c.Addr, c.End, nil, nil); w != "" {
+				return w, fmt.Errorf("unexplained:bus-access-depends-on-history")
+			}
+		}
+		return "the access after a 24-bit read goes where it goes on its own", nil
 	}
 	if c.Op == "read24" {
 		if what := c11Read24Check(s, c.Addr); what != "" {
@@ -456,6 +512,31 @@ func runC11(r *report.Run) {
 		}
 	}
 	r.Set("reads_24bit", read24)
+	// ---- history on the bus: plain read somewhere, a 24-bit read straddling a cell, then plain accesses in the
+	// next cell -- they go where they go on their own (table of a plain sweep)
+	var histSeq int64
+	if ds, err := c11NewSystem(); err == nil {
+		for _, k := range []uint{0, 3} {
+			c11Fill(ds, k)
+			val, pan := make([]byte, 1<<24), make([]bool, 1<<24)
+			for a := uint32(0); a < 1<<24; a++ {
+				val[a], pan[a] = c11Read(ds, a)
+			}
+		seq:
+			for q := uint32(0xE); q < 1<<24; q += 0x10 {
+				for _, prior := range []uint32{0x004212, 0x7E0021, 0x008000, 0x700000} {
+					for _, qq := range []uint32{q, q + 1} {
+						histSeq++
+						if w := c11HistoryOne(ds, prior, qq, val, pan); w != "" {
+							r.Violation("unexplained:bus-access-depends-on-history", w, c11Case{Op: "history", Addr: prior, End: qq})
+							break seq
+						}
+					}
+				}
+			}
+		}
+	}
+	r.Set("access_histories_with_24bit_reads", histSeq)
 	r.Set("map_seams", seams)
 	r.Set("block_reads_across_seams", dumps)
 	// ---- a System obtained by copying another one and initialising the copy (struct copy, then CreateEmulator):
@@ -618,7 +699,7 @@ func runC11(r *report.Run) {
 	r.Set("by_class", perClass)
 	r.Set("mirror_layers", int64(maxLayer))
 	r.Set("writes_executed", writes)
-	r.Set("rule", "a System initialised 141 times must still have the map of a fresh one (both edges of every seam); a System obtained by struct copy + CreateEmulator must serve its own arrays (both edges of every seam read and written, the original untouched); 24-bit reads: Bus.EaRead24_wrap at all 2^24 addresses under two fills must equal the three single reads (wrapping inside the bank); block reads: Bus.EaDump from 20, 8 and 1 bytes before every seam of the map (attached/unattached or another array) to 20 bytes after it, and over blocks inside one 16-byte cell on either side of the seam, must equal the single reads and leave holes untouched; reads: all 2^24 bus addresses x 4 passes (byte k of a unique location id planted in every ROM/SRAM/WRAM array cell) identify exactly which cell backs each address; writes: addresses grouped into mirror layers (j-th alias of each cell), each layer written ascending/descending with two complementary value patterns and all three arrays compared in full with the prediction after each run; non-trivial = address that both the emulator backs with an array cell and the LoROM mapper translates")
+	r.Set("rule", "a System initialised 141 times must still have the map of a fresh one (both edges of every seam); a System obtained by struct copy + CreateEmulator must serve its own arrays (both edges of every seam read and written, the original untouched); access histories: a plain read at one of four places, a 24-bit read straddling a 16-byte cell (every such address), then a read and a write in the next cell must behave as on their own; 24-bit reads: Bus.EaRead24_wrap at all 2^24 addresses under two fills must equal the three single reads (wrapping inside the bank); block reads: Bus.EaDump from 20, 8 and 1 bytes before every seam of the map (attached/unattached or another array) to 20 bytes after it, and over blocks inside one 16-byte cell on either side of the seam, must equal the single reads and leave holes untouched; reads: all 2^24 bus addresses x 4 passes (byte k of a unique location id planted in every ROM/SRAM/WRAM array cell) identify exactly which cell backs each address; writes: addresses grouped into mirror layers (j-th alias of each cell), each layer written ascending/descending with two complementary value patterns and all three arrays compared in full with the prediction after each run; non-trivial = address that both the emulator backs with an array cell and the LoROM mapper translates")
 	r.Set("exhaustive", true)
 	r.Sample(c11Case{Op: "read", Addr: 0x808000})
 	r.Sample(c11Case{Op: "write", Addr: 0x001FFF})
